@@ -391,9 +391,11 @@ func (d *BlockDetector) validateBlocks(blocks []Block) []Block {
 			continue
 		}
 
-		// Skip blocks that are too small
-		if block.BBox.Width < d.config.MinBlockWidth ||
-			block.BBox.Height < d.config.MinBlockHeight {
+		// Skip blocks that are too small, unless they carry visible text: a lone
+		// narrow glyph or a line on a page with scaled-down coordinates is
+		// content, not noise, and must not vanish from the output.
+		if (block.BBox.Width < d.config.MinBlockWidth ||
+			block.BBox.Height < d.config.MinBlockHeight) && !blockHasVisibleText(block) {
 			continue
 		}
 
@@ -409,6 +411,17 @@ func (d *BlockDetector) validateBlocks(blocks []Block) []Block {
 }
 
 // Helper functions
+
+// blockHasVisibleText reports whether any fragment of the block contains a
+// non-whitespace character
+func blockHasVisibleText(block Block) bool {
+	for _, f := range block.Fragments {
+		if !isWhitespaceOnly(f.Text) {
+			return true
+		}
+	}
+	return false
+}
 
 // lineMinY returns the minimum Y of all fragments in a line (bottom)
 func lineMinY(line []text.TextFragment) float64 {
